@@ -8,4 +8,5 @@ CONSTANTS
 INVARIANT BuildEncodes
 INVARIANT InvTypeSane
 INVARIANT InvLayout
+INVARIANT InvAccessor
 CHECK_DEADLOCK FALSE
